@@ -398,8 +398,8 @@ def gmres(A: LinearOperator, B: torch.Tensor,
 
         h[..., k + 1, k] = torch.linalg.norm(y, dim=-2).reshape(-1, ncols)
         if torch.any(h[..., k + 1, k]) != 0 and k != max_niter - 1:
-            q[k + 1] = y.reshape(-1, nr, ncols) / h[..., k + 1, k].reshape(-1, 1, ncols)
-            q[k + 1] = q[k + 1].reshape(*batchdims, nr, ncols)
+            qnew = y.reshape(-1, nr, ncols) / h[..., k + 1, k].reshape(-1, 1, ncols)
+            q[k + 1] = qnew.reshape(*batchdims, nr, ncols)
 
         b = torch.zeros((*batchdims, ncols, k + 1), dtype=A.dtype, device=A.device)
         b = b.reshape(-1, ncols, k + 1)
